@@ -379,6 +379,10 @@ Third:
 			}
 		}
 	case '\n':
+		// the bodies of pending here-documents begin here
+		if l.heredoc.exists() && !l.readHeredocs() {
+			return nil
+		}
 		l.emit('\n')
 		if !l.linebreak() {
 			return nil
@@ -405,6 +409,10 @@ In:
 		case WORD:
 			l.emit(WORD)
 		case ';', '\n':
+			// the bodies of pending here-documents begin here
+			if tok == '\n' && l.heredoc.exists() && !l.readHeredocs() {
+				return nil
+			}
 			l.emit(tok)
 			if !l.linebreak() {
 				return nil
